@@ -34,7 +34,7 @@ by=collections.defaultdict(list)
 for m in ms:
     if m['status']=='survived': by[cat(m)].append(m)
 out=["# Mutation self-test of the rules: result and triage of the survivors\n",
-"Produced by `bin/rdmcheck -selftest mutants -shard i/6` on the current tree (all rules of all properties, mutants applied in memory); this file is written by `tools/mutation_triage.py`.\n",
+"Produced by `bin/rdmcheck -selftest mutants -shard i/8` on the current tree (all rules of all properties, mutants applied in memory); this file is written by `tools/mutation_triage.py`.\n",
 f"Mutants: {len(ms)} generated; **{c['killed']} reported** by at least one rule, {c['survived']} not reported, {c['invalid']} discarded because they do not type-check.\n",
 "| kind | reported | not reported | discarded |\n|---|---|---|---|"]
 for k in sorted(byk): out.append(f"| {k} | {byk[k]['killed']} | {byk[k]['survived']} | {byk[k]['invalid']} |")
